@@ -84,6 +84,11 @@ def rule_table(prog, fn, inputs=None, overrides=None, comparators=None, max_runs
 
         def mk(name, outs):
             def f(I, p, node, args):
+                if name in NULL_NEVER_EQUAL and any(a == 0 for a in args[:2]):
+                    # an absent operand: the primitive answers "not equal" (decided on the primitive itself by C01.compare), so the
+                    # outcome is not enumerated - a rule that tolerates an absent component shows up as a slice of its own
+                    state["cmps"].append((name, tuple(name_of(a) for a in args), 0))
+                    return 0
                 i = state["i"]
                 state["i"] += 1
                 if i < len(oracle):
@@ -156,7 +161,15 @@ def succeed_model_named(prog, overrides, list_length=None, list_at=None):
                             continue
                         fld = getter_field(prog, name)
                         if fld is not None and j == 1 and isinstance(args[0], Ptr):
-                            I.write(p, key, Ptr("%s->%s" % (first, fld)))      # plain getter: the object's field
+                            # plain getter: the object's field - present unless the scenario says otherwise (an optional element
+                            # of a parsed object may be absent: the 'no <path>' slices of normalised_table)
+                            fkey = "%s->%s" % (first, fld)
+                            if fkey in I.inputs:
+                                I.write(p, key, I.inputs[fkey])
+                            else:
+                                if getattr(I, "defaulted", None) is not None:
+                                    I.defaulted.add(fkey)
+                                I.write(p, key, Ptr(fkey))
                             continue
                         extra = ",".join(name_of(x) for x in args[1:j])
                         I.write(p, key, Ptr("%s(%s%s)" % (name[4:] if name.startswith("KSI_") else name, first, ("," + extra) if extra else "")))
@@ -195,6 +208,7 @@ def getter_field(prog, name):
 
 
 SYMMETRIC = {"KSI_DataHash_equals", "KSI_Integer_equals", "KSI_OctetString_equals"}
+NULL_NEVER_EQUAL = SYMMETRIC | {"KSI_Integer_equalsUInt"}
 
 
 def normalised_table(prog, fn, **kw):
